@@ -1,21 +1,274 @@
 package main
 
 import (
+	"encoding/json"
+	"fmt"
+	"os"
+	"path/filepath"
+	"sort"
+	"strings"
+
+	"decverif/internal/model"
+	"decverif/internal/ob"
 	"decverif/internal/props"
 )
 
-// controlReport summarises the control corpus run (see controls/*.json).
+// A control is a small source edit applied through packages.Config.Overlay
+// (no copy of the repository is made). Positive controls break one rule
+// instance and must make the named rule report a new violation; negative
+// controls are behaviour-preserving edits on which every rule must stay silent.
+type edit struct {
+	File string `json:"file"`
+	Old  string `json:"old"`
+	New  string `json:"new"`
+}
+type expect struct {
+	Rule      string `json:"rule"`
+	Construct string `json:"construct,omitempty"` // substring of the construct
+}
+type control struct {
+	Name   string   `json:"name"`
+	Kind   string   `json:"kind"` // positive | negative
+	Edits  []edit   `json:"edits"`
+	Expect []expect `json:"expect,omitempty"`
+	Rules  []string `json:"rules,omitempty"` // negative: rules that must stay silent
+	Quick  bool     `json:"quick,omitempty"`
+	Config string   `json:"config,omitempty"`
+	Note   string   `json:"note,omitempty"`
+}
+
 type controlReport struct {
 	Run        int      `json:"run"`
 	Fired      int      `json:"fired"`
+	Silent     int      `json:"negative_silent"`
 	Skipped    int      `json:"skipped"`
 	Blind      int      `json:"blind"`
 	FalseAlarm int      `json:"false_alarm"`
 	BlindNames []string `json:"blind_names,omitempty"`
 	FalseNames []string `json:"false_alarm_names,omitempty"`
 	Names      []string `json:"names,omitempty"`
+	SkipNames  []string `json:"skipped_names,omitempty"`
+}
+
+func loadControls() []control {
+	files, _ := filepath.Glob(filepath.Join(*flagVerif, "controls", "*.json"))
+	sort.Strings(files)
+	var out []control
+	for _, f := range files {
+		b, err := os.ReadFile(f)
+		if err != nil {
+			model.Fatal("controls: %v", err)
+		}
+		var cs []control
+		if err := json.Unmarshal(b, &cs); err != nil {
+			model.Fatal("controls: %s: %v", f, err)
+		}
+		out = append(out, cs...)
+	}
+	return out
+}
+
+func (c control) rulesFor(p *props.Prop) []string {
+	in := func(r string) bool {
+		for _, x := range p.Rules {
+			if ob.RuleMatches(r, x) || ob.RuleMatches(x, r) {
+				return true
+			}
+		}
+		return false
+	}
+	var out []string
+	seen := map[string]bool{}
+	add := func(r string) {
+		base := r
+		if i := strings.IndexAny(base, "(:/"); i > 0 {
+			base = base[:i]
+		}
+		if in(base) && !seen[base] {
+			seen[base] = true
+			out = append(out, base)
+		}
+	}
+	if c.Kind == "negative" {
+		if len(c.Rules) == 0 {
+			for _, r := range p.Rules {
+				add(r)
+			}
+		}
+		for _, r := range c.Rules {
+			add(r)
+		}
+		return out
+	}
+	for _, e := range c.Expect {
+		add(e.Rule)
+	}
+	return out
+}
+
+func (c control) overlay() (map[string][]byte, string) {
+	ov := map[string][]byte{}
+	for _, e := range c.Edits {
+		path := filepath.Join(*flagRepo, e.File)
+		src, ok := ov[path]
+		if !ok {
+			b, err := os.ReadFile(path)
+			if err != nil {
+				return nil, "file missing: " + e.File
+			}
+			src = b
+		}
+		if n := strings.Count(string(src), e.Old); n != 1 {
+			return nil, fmt.Sprintf("old text occurs %d times in %s", n, e.File)
+		}
+		ov[path] = []byte(strings.Replace(string(src), e.Old, e.New, 1))
+	}
+	return ov, ""
+}
+
+func violationKeys(list []ob.Obligation) map[string]bool {
+	k := map[string]bool{}
+	for _, o := range list {
+		if o.Verdict == ob.Violation || o.Verdict == ob.Known {
+			k[o.Key()] = true
+		}
+	}
+	return k
+}
+
+// runOneControl returns (new violations, skipReason).
+func runOneControl(c control, rules []string, base map[string]map[string]bool) (fresh []ob.Obligation, skip string) {
+	ov, why := c.overlay()
+	if ov == nil {
+		return nil, why
+	}
+	cfg := c.Config
+	if cfg == "" {
+		cfg = "amd64"
+	}
+	bk := strings.Join(rules, ",") + "@" + cfg
+	if base[bk] == nil {
+		l, _ := runRules(rules, cfg, nil)
+		base[bk] = violationKeys(l)
+	}
+	var list []ob.Obligation
+	func() {
+		defer func() {
+			if r := recover(); r != nil {
+				if ae, ok := r.(model.AnalysisError); ok {
+					// An edit that makes an anchor vanish or the analysis undecidable is a
+					// detected change as well (exit 2 in a real run); an edit that does not
+					// type-check is a broken control.
+					if strings.Contains(ae.Msg, "type-check") || strings.Contains(ae.Msg, "ill-typed") {
+						skip = "control does not compile: " + ae.Msg
+						return
+					}
+					list = []ob.Obligation{{Rule: "ANALYSIS-ERROR", Construct: ae.Msg, Verdict: ob.Violation}}
+					return
+				}
+				panic(r)
+			}
+		}()
+		list, _ = runRules(rules, cfg, ov)
+	}()
+	if skip != "" {
+		return nil, skip
+	}
+	for _, o := range list {
+		if o.Verdict == ob.Violation && !base[bk][o.Key()] {
+			fresh = append(fresh, o)
+		}
+	}
+	return fresh, ""
+}
+
+func (c control) firedBy(fresh []ob.Obligation) bool {
+	for _, o := range fresh {
+		if o.Rule == "ANALYSIS-ERROR" {
+			return true
+		}
+		for _, e := range c.Expect {
+			if ob.RuleMatches(o.Rule, e.Rule) && (e.Construct == "" || strings.Contains(o.Construct, e.Construct)) {
+				return true
+			}
+		}
+	}
+	return false
 }
 
 func runControls(p *props.Prop, tier string) controlReport {
-	return controlReport{}
+	rep := controlReport{}
+	base := map[string]map[string]bool{}
+	quickSeen := map[string]bool{}
+	for _, c := range loadControls() {
+		rules := c.rulesFor(p)
+		if len(rules) == 0 {
+			continue
+		}
+		if tier != "thorough" {
+			if !c.Quick {
+				continue
+			}
+			k := c.Kind + ":" + strings.Join(rules, ",")
+			if quickSeen[k] {
+				continue
+			}
+			quickSeen[k] = true
+		}
+		fresh, skip := runOneControl(c, rules, base)
+		if skip != "" {
+			rep.Skipped++
+			rep.SkipNames = append(rep.SkipNames, c.Name+": "+skip)
+			continue
+		}
+		rep.Run++
+		rep.Names = append(rep.Names, c.Name)
+		if c.Kind == "negative" {
+			if len(fresh) > 0 {
+				rep.FalseAlarm++
+				rep.FalseNames = append(rep.FalseNames, c.Name+": "+fresh[0].String())
+			} else {
+				rep.Silent++
+			}
+			continue
+		}
+		if c.firedBy(fresh) {
+			rep.Fired++
+		} else {
+			rep.Blind++
+			rep.BlindNames = append(rep.BlindNames, c.Name)
+		}
+	}
+	return rep
+}
+
+// debugControl runs one control against every rule it names and prints what it changed.
+func debugControl(name string) int {
+	for _, c := range loadControls() {
+		if c.Name != name {
+			continue
+		}
+		var rules []string
+		all := &props.Prop{}
+		for _, e := range c.Expect {
+			all.Rules = append(all.Rules, e.Rule)
+		}
+		all.Rules = append(all.Rules, c.Rules...)
+		if *flagRule != "" {
+			all.Rules = strings.Split(*flagRule, ",")
+		}
+		rules = c.rulesFor(all)
+		fresh, skip := runOneControl(c, rules, map[string]map[string]bool{})
+		if skip != "" {
+			fmt.Println("SKIPPED:", skip)
+			return 2
+		}
+		for _, o := range fresh {
+			fmt.Println(o)
+		}
+		fmt.Printf("control %s (%s): %d new violations over rules %v; fired=%v\n", c.Name, c.Kind, len(fresh), rules, c.firedBy(fresh))
+		return 0
+	}
+	fmt.Println("no such control")
+	return 2
 }
